@@ -249,15 +249,24 @@ fn tok_matches(d: Dialect, tok: &Tok, e: &Expect) -> Result<(), String> {
             if b == t {
                 Ok(())
             } else {
-                Err(format!("bytes {b:02x?} != {t:02x?}"))
+                Err(bytes_diff(b, t))
             }
         }
         (Tok::Str(s), Expect::Bytes(t)) if d == Dialect::Postgres => match lex::pg_bytea_from_text(s) {
             Some(b) if &b == t => Ok(()),
-            Some(b) => Err(format!("bytea {b:02x?} != {t:02x?}")),
+            Some(b) => Err(bytes_diff(&b, t)),
             None => Err(format!("literal text {s:?} is not bytea hex format")),
         },
         (t, _) => Err(format!("token {} is not a literal of the expected kind", t.show())),
+    }
+}
+
+/// a bounded class for the signature (the payload itself is in the detail text)
+fn bytes_diff(got: &[u8], want: &[u8]) -> String {
+    match got.len().cmp(&want.len()) {
+        std::cmp::Ordering::Greater => "-bytes/longer-than-supplied".into(),
+        std::cmp::Ordering::Less => "-bytes/shorter-than-supplied".into(),
+        std::cmp::Ordering::Equal => "-bytes/content-differs".into(),
     }
 }
 
